@@ -674,6 +674,17 @@ Definition op_mismatch (o : c24_op) : bool :=
 
 Definition C24_mismatch (c : c24_case) : bool := existsb op_mismatch (c24_ops c).
 
+(* the model's observations for the inputs of an operation *)
+Definition model_op (o : c24_op) : c24_op :=
+  match o with
+  | OpIn id f wire _ => OpIn id f wire (model_in id f wire)
+  | OpMsg m wire _ => OpMsg m wire (model_through m wire)
+  | OpOut id f _ _ _ => OpOut id f (FromFrame id f) true (model_out_decode (FromFrame id f))
+  | OpDecode p b _ _ _ _ =>
+    OpDecode p b (determineMessageType p) (decode_dispatch p b) true (to_frame_token (decode_dispatch p b))
+  | OpSyntax _ => OpSyntax true
+  end.
+
 (* ---- the property on the implementation's observations ----------------------------------------------- *)
 
 Definition inbound_supported (f : frame) : bool :=
